@@ -56,13 +56,14 @@ Lemma dinv_frame s s' :
   dinv s -> (forall n, log (st s' n) = log (st s n)) ->
   (forall n, flushed (st s' n) = flushed (st s n)) ->
   (forall n, commit (st s' n) = commit (st s n)) -> acks s' = acks s ->
-  elected s' = elected s -> dinv s'.
+  elected s' = elected s -> created s' = created s -> dinv s'.
 Proof.
-  intros D Hl Hf Hc Ha He. constructor.
+  intros D Hl Hf Hc Ha He Hcr. constructor.
   - intro n. rewrite Hl, Hf. apply (d_fl s D).
   - intro n. rewrite Hc, Hf. apply (d_cf s D).
   - intros tc v i j. rewrite Ha, Hl, Hf. apply (d_ack s D).
   - intros n j e. rewrite Hl, Hf, He. apply (d_unfl s D).
+  - intros t n L. rewrite He, Hcr. apply (d_elcr s D).
 Qed.
 
 Ltac dframe D := apply (dinv_frame _ _ D); simpl; try reflexivity; intro n0; updall; reflexivity.
@@ -85,7 +86,7 @@ Lemma dinv_flush s n k :
 Proof.
   intros D Hk. pose proof (d_cf s D n).
   constructor; simpl; intros; updall; simpl in *;
-    try apply (d_fl s D); try apply (d_cf s D); try lia.
+    try (eapply (d_elcr s D); eassumption); try apply (d_fl s D); try apply (d_cf s D); try lia.
   - pose proof (d_ack s D tc n i j H0 H1 H2 H3). lia.
   - exact (d_ack s D tc v i j H0 H1 H2 H3).
   - apply (d_unfl s D n j e H0). lia.
@@ -96,7 +97,7 @@ Lemma dinv_crash s n c : dinv s -> (c <= commit (st s n))%nat -> dinv (do_crash 
 Proof.
   intros D Hc. pose proof (d_cf s D n). pose proof (d_fl s D n).
   constructor; simpl; intros; updall; simpl in *;
-    try apply (d_fl s D); try apply (d_cf s D);
+    try (eapply (d_elcr s D); eassumption); try apply (d_fl s D); try apply (d_cf s D);
     rewrite ?firstn_length_le' in * by assumption; try lia.
   - exact (d_ack s D tc v i j H1 H2 H3 H4).
   - exfalso. assert (Hn : nth_error (firstn (flushed (st s n)) (log (st s n))) j <> None)
@@ -110,7 +111,7 @@ Lemma dinv_commit s l k :
 Proof.
   intros D Hk. pose proof (d_fl s D l).
   constructor; simpl; intros; updall; simpl in *;
-    try apply (d_fl s D); try apply (d_cf s D); try lia.
+    try (eapply (d_elcr s D); eassumption); try apply (d_fl s D); try apply (d_cf s D); try lia.
   - destruct H0 as [H0|H0]; [inversion H0; subst; lia|].
     pose proof (d_ack s D tc l i j H0 H1 H2 H3). lia.
   - destruct H0 as [H0|H0]; [inversion H0; subst; congruence|].
@@ -127,9 +128,10 @@ Lemma dinv_snoc s s' l e :
   (forall n, commit (st s' n) = commit (st s n)) -> acks s' = acks s ->
   (forall i, In (cur (st s l), l, i) (acks s) -> (i <= length (log (st s l)))%nat) ->
   incl (elected s) (elected s') -> (exists L, In (eterm e, l, L) (elected s')) ->
+  (forall t n L, In (t, n, L) (elected s') -> In (L ++ [noop t]) (created s')) ->
   dinv s'.
 Proof.
-  intros D Hl He Hn Hf Hc Ha Hi Hel Hnew. constructor.
+  intros D Hl He Hn Hf Hc Ha Hi Hel Hnew Hcr. constructor; [| | | |exact Hcr].
   - intro n. rewrite Hf. pose proof (d_fl s D n). destruct (N.eq_dec n l) as [->|Hne].
     + rewrite Hl, app_length. lia.
     + rewrite (Hn n Hne). exact H.
@@ -166,6 +168,7 @@ Proof.
   - intros i Hi. destruct (a_ok s X _ _ _ Hi) as [_ [K [HK [HlK Hlen]]]].
     pose proof (prefix_length _ _ (c_ldr s X l K Hr HK HlK)). lia.
   - destruct (v_ldr s X l Hr) as [Lt [He _]]. exists Lt. exact He.
+  - intros t n L H. right. exact (d_elcr s D t n L H).
 Qed.
 
 Lemma dinv_win s c :
@@ -181,6 +184,8 @@ Proof.
     destruct (f_cel V0 s F K HK) as [n' [L' [He _]]]. rewrite HlK in He.
     exact (win_fresh V0 V0_nodup s c n' L' (conj F X) Hr Hmaj He).
   - exists (log (st s c)). left. reflexivity.
+  - intros t n L [H|H]; [inversion H; subst; left; reflexivity|].
+    right. exact (d_elcr s D t n L H).
 Qed.
 
 Lemma log_eqb_eq a b : log_eqb a b = true -> a = b.
@@ -214,7 +219,7 @@ Proof.
   destruct (log_eqb lg' (log (st s f))) eqn:E.
   - apply log_eqb_eq in E.
     constructor; simpl; intros; updall; simpl in *;
-      try apply (d_fl s D); try apply (d_cf s D); try (rewrite E in *; lia).
+      try (eapply (d_elcr s D); eassumption); try apply (d_fl s D); try apply (d_cf s D); try (rewrite E in *; lia).
     + rewrite E in *. destruct H as [H|H]; [inversion H; subst; apply Hot; [assumption | symmetry; assumption]|].
       exact (d_ack s D tc f i j H H0 H1 H2).
     + destruct H as [H|H]; [inversion H; subst; congruence|].
@@ -222,7 +227,7 @@ Proof.
     + rewrite E in *. exact (d_unfl s D f j e H H0).
     + exact (d_unfl s D n j e H H0).
   - constructor; simpl; intros; updall; simpl in *;
-      try apply (d_fl s D); try apply (d_cf s D); try lia.
+      try (eapply (d_elcr s D); eassumption); try apply (d_fl s D); try apply (d_cf s D); try lia.
     + destruct H as [H|H]; [inversion H; subst; congruence|].
       exact (d_ack s D tc v i j H H0 H1 H2).
     + exfalso. assert (Hn : nth_error lg' j <> None) by congruence.
